@@ -50,6 +50,7 @@ fn c_like(code: &'static str, code_s: &'static str, doc: Option<&'static str>, b
         seg("code-with-string", Kind::NonProse, code_s, false),
         seg("line-comment", Kind::Prose, "// {}", true),
         seg("line-comment-with-url", Kind::Prose, "// {} http://zzqhost.example/zzqpath?zzqkey=1 {}", true),
+        seg("line-comment-with-port-url-and-mail", Kind::Prose, "// {} http://localhost:8080/zzqpath me@example.com {}", true),
         seg("line-comment-after-code", Kind::Prose, "", true), // filled per row below
         seg("ignored-comment", Kind::Ignored, "// harper:ignore zzqalpha zzqbravo", true),
         seg("ignored-comment-2", Kind::Ignored, "// spellchecker: ignore zzqalpha", true),
@@ -179,6 +180,8 @@ pub fn row_for(fe: &FrontEnd) -> Option<Row> {
                 seg("paragraph-with-entities", Kind::Prose, "{} &lt;&gt; &amp; {}\n", false),
                 seg("paragraph-with-url", Kind::Prose, "{} http://zzqhost.example/zzqpath?zzqkey=1 {}\n", false),
                 seg("paragraph-with-autolink", Kind::Prose, "{} <https://zzqhost.example/zzqpath> {}\n", false),
+                seg("paragraph-with-port-url", Kind::Prose, "{} http://localhost:8080/zzqpath {}\n", false),
+                seg("paragraph-with-mail", Kind::Prose, "{} me@example.com {}\n", false),
                 seg("fenced-code", Kind::NonProse, "```\nzzqfenced é😀 zzqcode\n```\n", false),
                 seg("indented-code", Kind::NonProse, "    zzqindented é😀 zzqcode\n", false),
                 seg("raw-html", Kind::NonProse, "<div zzqattr=\"zzqvalue\">\n</div>\n", false),
